@@ -1,6 +1,6 @@
 """C17 The pid file names the running master, exclusively and atomically.
 
-Engine E6 (vlib/e6_pidfile.py), plus a live part on engine E4 (checks/c17_live.py).  Five parts:
+Engine E6 (vlib/e6_pidfile.py), plus a live part on engine E4 (checks/c17_live.py).  Six parts:
 
 H  histories   2-3 real helper processes, each owning a real gunicorn.pidfile.Pidfile, execute
                sequences over {create, validate, rename, unlink} x instance, harness events {foreign
@@ -12,6 +12,10 @@ M  matrix      single-instance create / rename / unlink / validate over odd file
                newline, CRLF, blanks, undecodable bytes, 0, negative, overflowing numbers ...); permission
                cells: an unprivileged starter on the private (0600) pid file of another user's live master in a
                directory it may write to - it cannot read whom the file names and must not replace it.
+S  spellings   one pid file under several names (absolute, relative, "./", "//", "x/../x", through a symlinked
+               directory, through a symbolic link to the file): a real Arbiter.reload() after the `pidfile` setting
+               was re-spelled (two Pidfile objects of one process mean one file), the same by hand on two Pidfile
+               objects, and two processes using two spellings; every ordered pair of spellings (run_spellings).
 K  crashes     create() / rename() / unlink() in a forked child whose os / tempfile / open are
                counting proxies; the child is killed (os._exit(137)) immediately before and
                immediately after EVERY call, plus short-write variants; the parent inspects the target, and then
@@ -33,7 +37,10 @@ L  live        real masters with a pid file (sync, gthread; thorough: gevent, ev
                from is gone (the forked re-exec child fails - the pid file and the workers of the running
                master are not its to touch), and SIGUSR2, SIGHUP to the NEW master while the old one lives,
                TERM / QUIT to the new master: "<pidfile>" names the old master for as long as it runs,
-               "<pidfile>.2" never does (checks/c17_live.py).
+               "<pidfile>.2" never does; re-spelling histories: the `pidfile` setting is edited to another name
+               of the same file, SIGHUP, along a chain of names - after every completed reload the file exists
+               under the configured name and names the master, and a second server on yet another spelling
+               is refused (checks/c17_live.py).
 
 Tiers.  quick: every sequence up to length 3 (length 4 without model-no-ops for the plain two-instance
 layout) for 2 instances x {both on one path, second on "<path>.2"} x {root/root, root/nobody,
@@ -70,6 +77,7 @@ RULE = ("H: case = (instance count, path layout, uid assignment, pid order, oper
         "write) enumerated completely from a counting run, incl. the restricted-deployment cells, each followed by a create() "
         "of another instance on the state left behind; U: case = (starter uid, file owner, live/dead content, operation) on an "
         "unreadable pid file; "
+        "S: case = (family reload|objects|start, spelling before, spelling after / of the second process), all ordered pairs; "
         "R: case = (scenario = operations of 2-3 instances + pre-state of the paths, schedule = which instance makes the "
         "next call), all schedules up to the preemption bound + seeded samples; L: case = (worker class, event list); "
         "distinct by case")
@@ -141,6 +149,14 @@ ASSUMPTIONS = [
     "'<pidfile>.2' left behind by a new master that has gone; after a re-exec attempt that fails in the forked child "
     "(start directory gone) the running master must still have its pid file AND its workers - a child that stops "
     "them has run the master's exit path, the same path that removes the pid file",
+    "spellings (part S, live re-spelling histories): a name configured for the pid file means the file it resolves to from the "
+    "master's working directory at that moment; after a reload the file is looked for under the name now configured. "
+    "Arbiter.reload() is driven on a real Arbiter with a real Config (workers = 0, no listeners, spawning disabled) in a helper "
+    "process; if that cannot be done in the tree under test the run is inconclusive. reload() raising RuntimeError (the master "
+    "would give up) is counted (info.respell_reload_raised), not judged here. Pidfile alone cannot know that two names are one "
+    "file: 'create under the new name, then unlink under the old one' on two Pidfile objects leaves no file on the unchanged "
+    "tree (info.respell_create_then_unlink_left_no_file) - that order is judged only where an arbiter uses it (reload family, "
+    "live histories)",
     "a deviation is reported only if it reproduces in two further executions of the same history with fresh processes "
     "(pid_max is 32768 here, so a 'dead' pid may be reused by an unrelated process); a non-reproducing one is counted in "
     "info.transient_deviation, a partly reproducing one makes the run inconclusive",
@@ -992,6 +1008,211 @@ def run_unreadable(run, ctx, only=None):
     ctx.setup({"n": 1, "layout": "contend", "uids": [0]})
 
 
+# ---- part S: one pid file, several spellings of its path ---------------------------------------
+
+SPELL_START = ("abs", "dirlink", "dot", "dslash", "dotdot", "rel")          # names a server can be started on
+SPELL_ALL = SPELL_START + ("filelink",)                                       # + a symbolic link to the file itself
+
+
+def run_spellings(run, ctx, only=None):
+    """The same file named absolutely, relatively, with "./", "//", "x/../x", through a symlinked directory and through a
+    symbolic link to the file.  Three families, every ordered pair of spellings each:
+      reload   one process: a real Arbiter (vlib.e6_pidfile._arbiter_for_reload: real __init__/setup/reload, no workers, no
+               listeners) has its pid file under s1; the `pidfile` setting becomes s2; reload(): whatever order of unlink /
+               create THIS tree's reload() uses, afterwards the file exists under s2 and names the process; a second
+               process whose Pidfile is spelled s3 is refused and leaves the file; at halt the file goes.
+      objects  one process, two Pidfile objects, by hand in the order of the unchanged reload(): old.unlink(), Pidfile(s2),
+               create(): same judgement.  (The other order - create the new one, then unlink the old one - is run too and
+               only counted: Pidfile alone cannot know that both names are one file.)
+      start    two processes: A creates under s1; B, spelled s3, must be refused, its unlink() must leave A's file; after
+               A's death B takes the file over.
+    """
+    from checks.c17_live import spell
+    lab, e6 = ctx.lab, ctx.e6
+    base = lab.dir
+
+    def full(name):
+        return os.path.join(base, name)
+
+    def rd(name):
+        try:
+            with open(full(name), "rb") as f:
+                return f.read()
+        except FileNotFoundError:
+            return None
+
+    def fresh():
+        lab.clean()
+        os.mkdir(full("run"))
+        os.chmod(full("run"), 0o777)
+        os.symlink("run", full("run-link"))
+        a, b = ctx.ensure("A", 0), ctx.ensure("B", 0)
+        for h in (a, b):
+            r = h.call(op="chdir", path=base)
+            if not r["ok"]:
+                raise e6.HelperDied("chdir: %r" % (r,))
+        return a, b
+
+    def third(s2, s1):
+        for s in ("dirlink", "abs", "dot", "dslash"):
+            if s not in (s2, s1) and not (s2 == "filelink" and s == "abs"):
+                return s
+
+    def second_starter(b, a, cfg_name, s3, case, what):
+        """B, spelled s3 (a spelling, or the name itself), while A holds the file configured as cfg_name. -> True if judged fine"""
+        n3 = s3 if "/" in s3 else spell(base, s3, os.path.basename(os.path.realpath(full(cfg_name))))
+        if os.path.realpath(full(n3)) != os.path.realpath(full(cfg_name)) or n3 == cfg_name:
+            raise OSError("%r is not a second name of %r" % (n3, cfg_name))
+        want = b"%d\n" % a.pid
+        b.call(op="new", fname=n3)
+        r = b.call(op="create")
+        now = rd(cfg_name)
+        if now != want:
+            run.violation("respell-second-starter-replaced-live-owner", "%s: process %d (Pidfile %r) ran create() while process %d held the "
+                          "same file as %r: file was %r, now %r (create %s)" % (what, b.pid, n3, a.pid, cfg_name, want, now,
+                                                                                 "returned" if r["ok"] else "raised " + str(r.get("exc"))), case)
+            return False
+        if r["ok"]:
+            run.violation("respell-second-starter-accepted", "%s: create() of process %d (Pidfile %r) returned although the file, held by "
+                          "live process %d as %r, names that process" % (what, b.pid, n3, a.pid, cfg_name), case)
+            return False
+        run.count("respell_second_starter_refused")
+        b.call(op="unlink")
+        now = rd(cfg_name)
+        if now != want:
+            run.violation("respell-refused-starter-removed-live-owners-file", "%s: after its refused create() process %d (Pidfile %r) ran "
+                          "unlink(): the file of live process %d (%r) was %r, now %r" % (what, b.pid, n3, a.pid, cfg_name, want, now), case)
+            return False
+        return True
+
+    def holds(a, name, case, what, mech):
+        now = rd(name)
+        if now == b"%d\n" % a.pid:
+            return True
+        run.violation("%s-%s" % (mech, "lost-pidfile" if now is None else "wrong-content"),
+                      "%s: process %d is running, its pid file %r %s" % (what, a.pid, name, "does not exist" if now is None else "holds %r" % now), case)
+        return False
+
+    cases = []
+    for s1 in SPELL_START:
+        for s2 in SPELL_ALL:
+            if s1 != s2:
+                cases.append(("reload", s1, s2))
+                cases.append(("objects", s1, s2))
+                cases.append(("start", s1, s2))
+    if only is not None:
+        cases = [tuple(only)]
+    for fam, s1, s2 in cases:
+        case = {"part": "S", "case": [fam, s1, s2]}
+        try:
+            a, b = fresh()
+            n1, n2 = spell(base, s1), spell(base, s2)
+            if s2 == "filelink":
+                os.symlink("master.pid", full(n2))
+            what = "%s %s -> %s" % (fam, n1, n2)
+            run.case(("S", fam, s1, s2))
+            if fam == "reload":
+                r = a.call(op="arbiter_boot", fname=n1)
+                if not r["ok"] or rd(n1) != b"%d\n" % a.pid:
+                    run.inconclusive_because("part S: the reload harness could not be set up in this tree (%s %s): %r, file %r" % (
+                        s1, s2, {k: r.get(k) for k in ("exc", "msg")}, rd(n1)))
+                    return
+                r = a.call(op="arbiter_reload", fname=n2)
+                if not r["ok"]:
+                    if r.get("exc") == "RuntimeError":
+                        # the master would give up (create() refused): not what is judged here
+                        run.info["respell_reload_raised"] = run.info.get("respell_reload_raised", 0) + 1
+                        continue
+                    run.inconclusive_because("part S: Arbiter.reload() could not be driven in this tree (%s %s): %s %s" % (
+                        s1, s2, r.get("exc"), r.get("msg")))
+                    return
+                if r.get("arbiter_fname") != n2:
+                    run.inconclusive_because("part S: after reload() the arbiter's Pidfile is %r, configured %r" % (r.get("arbiter_fname"), n2))
+                    return
+                run.count("respell_reload_cases")
+                if not holds(a, n2, case, what + " (Arbiter.reload() after the `pidfile` setting was re-spelled)", "respell-reload"):
+                    continue
+                run.count("respell_reload_kept_pidfile")
+                if not second_starter(b, a, n2, third(s2, s1), case, what):
+                    continue
+                a.call(op="arbiter_halt")
+                if rd(n2) is not None:
+                    run.violation("respell-halt-left-own-file", "%s: the arbiter's pid file %r holds %r after halt" % (what, n2, rd(n2)), case)
+                else:
+                    run.count("respell_halt_removed_pidfile")
+            elif fam == "objects":
+                for order in ("unlink-create", "create-unlink"):
+                    a, b = fresh()
+                    if s2 == "filelink":
+                        os.symlink("master.pid", full(n2))
+                    a.call(op="new", fname=n1, obj="old")
+                    r = a.call(op="create", obj="old")
+                    if not r["ok"] or rd(n1) != b"%d\n" % a.pid:
+                        run.inconclusive_because("part S: create() on a fresh path %r failed: %r" % (n1, r))
+                        return
+                    a.call(op="new", fname=n2, obj="new")
+                    if order == "unlink-create":
+                        a.call(op="unlink", obj="old")
+                        r = a.call(op="create", obj="new")
+                        if not r["ok"]:
+                            run.violation("respell-create-refused-after-own-unlink", "%s: old.unlink() then create() under the new name raised "
+                                          "%s: %s" % (what, r.get("exc"), r.get("msg")), dict(case, order=order))
+                            break
+                        run.count("respell_two_object_cases")
+                        if not holds(a, n2, dict(case, order=order), what + " (old.unlink(); Pidfile(new).create())", "respell-objects"):
+                            break
+                        if not second_starter(b, a, n2, third(s2, s1), dict(case, order=order), what):
+                            break
+                        a.call(op="unlink", obj="new")
+                        if rd(n2) is not None:
+                            run.violation("respell-unlink-left-own-file", "%s: %r holds %r after unlink() by its owner" % (what, n2, rd(n2)),
+                                          dict(case, order=order))
+                            break
+                    else:
+                        r = a.call(op="create", obj="new")
+                        a.call(op="unlink", obj="old")
+                        k = "respell_create_then_unlink_%s" % ("create_raised" if not r["ok"] else
+                                                               "kept_file" if rd(n2) == b"%d\n" % a.pid else "left_no_file")
+                        run.info[k] = run.info.get(k, 0) + 1
+            else:
+                a.call(op="new", fname=n1)
+                r = a.call(op="create")
+                if not r["ok"] or rd(n1) != b"%d\n" % a.pid:
+                    run.inconclusive_because("part S: create() on a fresh path %r failed: %r" % (n1, r))
+                    return
+                if not second_starter(b, a, n1, n2, case, what):
+                    continue
+                run.count("respell_start_refused_other_spelling")
+                # owner death: now the file is stale and B, under its spelling, takes it over
+                dead = a.pid
+                a.kill()
+                lab.bury(dead)
+                ctx.slot.pop("A", None)
+                if a in lab.helpers:
+                    lab.helpers.remove(a)
+                if not e6.pid_is_dead(dead):
+                    run.info["respell_pid_reused"] = run.info.get("respell_pid_reused", 0) + 1
+                    continue
+                r = b.call(op="create")
+                nb = r.get("fname")
+                if not e6.pid_is_dead(dead):
+                    run.info["respell_pid_reused"] = run.info.get("respell_pid_reused", 0) + 1
+                    continue
+                if not r["ok"]:
+                    run.violation("respell-create-refused-takeover/stale", "%s: the owner (pid %d) is dead; create() of process %d (Pidfile %r) "
+                                  "raised %s: %s" % (what, dead, b.pid, nb, r.get("exc"), r.get("msg")), case)
+                    continue
+                if not holds(b, nb, case, what + " (take-over of the dead owner's file)", "respell-takeover"):
+                    continue
+                run.count("respell_took_over_stale_other_spelling")
+                b.call(op="unlink")
+        except (e6.HelperTimeout, e6.HelperDied, OSError) as ex:
+            run.inconclusive_because("part S %s %s %s: %r" % (fam, s1, s2, ex))
+            return
+        if run.enough(6):
+            return
+
+
 # ---- part K: crash at every call ---------------------------------------------------------------
 
 CRASH_SCENARIOS = (
@@ -1709,6 +1930,9 @@ def shard(sh):
                 if run.enough():
                     break
             run.info["helper_forks"] = ctx.lab.forks
+        elif sh["kind"] == "S":
+            run_spellings(run, ctx)
+            run.info["helper_forks"] = ctx.lab.forks
         elif sh["kind"] == "M":
             for uid in sh["uids"]:
                 run_matrix(run, ctx, uid)
@@ -1773,6 +1997,7 @@ def plan(tier, seed):
         shards.append({"kind": "R", "scenarios": g, "bound": 4 if q else 6, "bound3": 2 if q else 3, "bound_long": 3 if q else 5,
                        "limit": 6000 if q else 150000, "samples": 150 if q else 3000, "seed": seed, "tier": tier})
     shards.append({"kind": "M", "uids": [0, NOBODY], "seed": seed, "tier": tier})
+    shards.append({"kind": "S", "seed": seed, "tier": tier})
     for i in range(4):
         shards.append({"kind": "K", "sub": i, "of": 4, "seed": seed, "tier": tier})
     return shards
@@ -1792,7 +2017,10 @@ def main(tier, seed):
                 "unreadable_pidfile_cells", "unreadable_live_refused",
                 "race_schedules_run", "race_schedules_enumerated", "race_schedules_sampled", "race_steps_observed",
                 "race_preemptions", "race_schedules_with_overlap", "race_scenarios_enumerated_to_bound",
-                "race_create_returned", "race_create_refused", "race_rename_returned", "race_took_over_stale")
+                "race_create_returned", "race_create_refused", "race_rename_returned", "race_took_over_stale",
+                # part S: one pid file, several spellings
+                "respell_reload_cases", "respell_reload_kept_pidfile", "respell_halt_removed_pidfile", "respell_two_object_cases",
+                "respell_second_starter_refused", "respell_start_refused_other_spelling", "respell_took_over_stale_other_spelling")
     run.assumptions = list(ASSUMPTIONS)
     if os.geteuid() != 0:
         run.inconclusive_because("not root: helpers cannot take different uids, the EPERM liveness answer is unreachable")
@@ -1834,6 +2062,8 @@ def replay(path):
             run_matrix(run, ctx, c["uid"], only=(c["content"], c["op"]))
         elif c["part"] == "U":
             run_unreadable(run, ctx, only=c["cell"])
+        elif c["part"] == "S":
+            run_spellings(run, ctx, only=c["case"])
         else:
             r, viol = crash_case(run, ctx.e6, ctx.lab.dir, c["scn"], c["k"], c["mode"], expect_call=c.get("call"))
             print("child exit %s calls=%s" % (r["exit"], r["calls"]))
